@@ -76,7 +76,11 @@ class Ctx:
 
     def vbuild(self, *specs):
         """Sync /repo's working tree into the scratch tree and make the given targets."""
+        t = time.time()
         r = subprocess.run([os.path.join(HOME, 'bin', 'vbuild')] + list(specs))
+        # the tier deadline budgets exploration, not (re)compilation after a source change
+        self.deadline_s += time.time() - t
+        self.build_s = getattr(self, 'build_s', 0.0) + (time.time() - t)
         if r.returncode != 0:
             raise HarnessError('vbuild %s failed' % (specs,))
 
